@@ -615,4 +615,273 @@ theorem runGen_spec (o : Opts) (a : LoadArgs) (hfix : o.fix = .new) (F0 : Time) 
         rw [List.cons_append, tsOf_cons_recd] at ht
         exact hle t ht
 
+/-! ### across files -/
+
+/-- Where the loader stands in the history between two `load` calls; `todo` are the lines it has
+not consumed yet, oldest first; `bound` bounds the reader's cached `adv`. -/
+inductive Pos (H : History) (bound : Time) (s : LState) (todo : List Line) : Prop
+  | inFile (later : List File) (f : File) (post : History)
+      (need : Option (Time × Payload)) (rest : List Line) (cur adv : Time) :
+      H = later.reverse ++ f :: post →
+      s.gen = .file need rest cur adv → adv ≤ bound → Track (firstTs0 f) s →
+      todo = genLines s.gen ++ later.flatten →
+      (tsOf todo).Pairwise (· ≤ ·) → (∀ t ∈ tsOf todo, tsLe s.ts t = true) →
+      (need = none → s.st = .streaming ∧ s.fresh = false) →
+      (∀ ts p, need = some (ts, p) → s.st = .awaiting ∧ (s.fresh = true → ts = firstTs0 f)) →
+      Pos H bound s todo
+  | exhausted : todo = [] → (s.st = .exhausted ∨ s.st = .complete) → s.gen = .noop → Pos H bound s todo
+
+theorem Pos.mono {H : History} {b b' : Time} {s : LState} {todo : List Line} (h : Pos H b s todo)
+    (hb : b ≤ b') : Pos H b' s todo := by
+  cases h with
+  | inFile later f post need rest cur adv h1 h2 h3 h4 h5 h6 h7 h8 h9 =>
+    exact .inFile later f post need rest cur adv h1 h2 (Nat.le_trans h3 hb) h4 h5 h6 h7 h8 h9
+  | exhausted h1 h2 h3 => exact .exhausted h1 h2 h3
+
+/-- nothing more can be delivered now: all is consumed, or the next line is a record not yet due -/
+def Blocked (adv : Time) (remaining : List Line) : Prop :=
+  remaining = [] ∨ ∃ ts p tl, remaining = .recd ts p :: tl ∧ adv < ts
+
+/-- what a `load` call (or the rest of one) achieves on the lines `todo` still to be consumed -/
+def Achieves (H : History) (o : Opts) (a : LoadArgs) (evs : List Event) (todo : List Line)
+    (out : LoadOut) : Prop :=
+  ∃ consumed remaining t s', todo = consumed ++ remaining ∧
+    out = .done t s' (evs ++ deliverable consumed) ∧
+    (∀ t ∈ tsOf consumed, t ≤ a.clock + o.la) ∧
+    Pos H (a.clock + o.la) s' remaining ∧
+    (a.limit = none → a.upcoming = none → Blocked (a.clock + o.la) remaining)
+
+/-- the statement about going on after a finished file `f`, with the files `later` still to come -/
+def LoopSpec (H : History) (o : Opts) (a : LoadArgs) (later : List File) : Prop :=
+  ∀ (f : File) (post : History) (fuel : Nat) (s : LState) (lc : Time) (evs : List Event),
+    H = later.reverse ++ f :: post → later.length + 1 ≤ fuel →
+    s.st = .switching → InFile (firstTs0 f) s →
+    (tsOf later.flatten).Pairwise (· ≤ ·) → (∀ t ∈ tsOf later.flatten, tsLe s.ts t = true) →
+    Achieves H o a evs later.flatten (loadLoop H o a fuel s lc evs)
+
+theorem afterFor_cont {r : ForOut} (hf : r.flow = .cont) (hst : r.s.st = .streaming) :
+    afterFor r = { r.s with st := .switching } := by
+  simp [afterFor, hf, hst]
+
+theorem afterFor_brk {r : ForOut} (hf : r.flow = .brk) (hst : r.s.st = .awaiting) :
+    afterFor r = r.s := by
+  simp [afterFor, hf, hst]
+
+/-- A file `g` has just been opened (its first record is pending): the rest of this pass of the loop. -/
+theorem opened_spec (H : History) (o : Opts) (a : LoadArgs) (hfix : o.fix = .new)
+    (later : List File) (hloop : LoopSpec H o a later)
+    (g : File) (post : History) (fuel : Nat) (s1 : LState) (lc : Time) (evs : List Event)
+    (p : Payload) (rest : List Line)
+    (hH : H = later.reverse ++ g :: post) (hfuel : later.length + 1 ≤ fuel)
+    (hgen : s1.gen = .file (some (firstTs0 g, p)) rest a.clock (a.clock + o.la))
+    (hfresh : s1.fresh = true) (hstrict : s1.strict = true) (hts : tsLe s1.ts (firstTs0 g) = true)
+    (hst : s1.st = .initial ∨ s1.st = .switching) (hbad : ¬(p = .bad ∧ s1.st = .initial))
+    (hsorted : (tsOf ((.recd (firstTs0 g) p :: rest) ++ later.flatten)).Pairwise (· ≤ ·))
+    (hle : ∀ t ∈ tsOf ((.recd (firstTs0 g) p :: rest) ++ later.flatten), tsLe s1.ts t = true) :
+    Achieves H o a evs ((.recd (firstTs0 g) p :: rest) ++ later.flatten)
+      (continueWith (loadLoop H o a fuel) (runGen o a s1 lc evs)) := by
+  have hfs : FileState s1 := by
+    rcases hst with h | h
+    · exact Or.inl h
+    · exact Or.inr (Or.inl h)
+  have hgl : genLines s1.gen = .recd (firstTs0 g) p :: rest := by rw [hgen]; rfl
+  obtain ⟨c, r, hsplit, h1, h2, h3, h4, h5, h6, h7⟩ :=
+    runGen_spec o a hfix (firstTs0 g) later.flatten s1 lc evs _ rest _ _ hgen (Nat.le_refl _)
+      (Or.inl ⟨hfresh, hstrict, hts⟩) (by rw [hgl]; exact hsorted) (by rw [hgl]; exact hle)
+      (by intro h; simp at h)
+      (by
+        intro ts p' h
+        simp only [Option.some.injEq, Prod.mk.injEq] at h
+        obtain ⟨rfl, rfl⟩ := h
+        exact ⟨hfs, fun _ => rfl, hbad⟩)
+  rw [hgl] at hsplit
+  cases h7 with
+  | finished hr hflow hstr =>
+    subst hr
+    have hin := h4 hstr
+    have hcw : continueWith (loadLoop H o a fuel) (runGen o a s1 lc evs) =
+        loadLoop H o a fuel { (runGen o a s1 lc evs).s with st := .switching }
+          (runGen o a s1 lc evs).cur (runGen o a s1 lc evs).evs := by
+      simp [continueWith, hflow, afterFor_cont hflow hstr]
+    rw [hcw, h1]
+    have hs2 : InFile (firstTs0 g) { (runGen o a s1 lc evs).s with st := .switching } := hin
+    obtain ⟨c', r', t, s', hsplit', hout, hdue', hpos, hblk⟩ :=
+      hloop g post fuel _ (runGen o a s1 lc evs).cur (evs ++ deliverable c) hH hfuel rfl hs2
+        (by
+          rw [tsOf_append] at hsorted
+          exact (List.pairwise_append.mp hsorted).2.1)
+        (by simpa using h6)
+    refine ⟨c ++ c', r', t, s', ?_, ?_, ?_, hpos, hblk⟩
+    · rw [hsplit, hsplit']; simp
+    · rw [hout, deliverable_append, List.append_assoc]
+    · intro t ht
+      rw [tsOf_append, List.mem_append] at ht
+      rcases ht with ht | ht
+      · exact h2 t ht
+      · exact hdue' t ht
+  | waiting ts p' tl hr hnot hflow hstw hg' =>
+    have hcw : continueWith (loadLoop H o a fuel) (runGen o a s1 lc evs) =
+        .done (some (runGen o a s1 lc evs).cur) (runGen o a s1 lc evs).s (runGen o a s1 lc evs).evs := by
+      simp [continueWith, hflow, afterFor_brk hflow hstw, hstw]
+    rw [hcw, h1]
+    refine ⟨c, r ++ later.flatten, _, _, by rw [hsplit]; simp, rfl, h2, ?_, ?_⟩
+    · refine .inFile later g post (some (ts, p')) tl a.clock (a.clock + o.la) hH hg' (Nat.le_refl _) h3 ?_ ?_ h6
+        (by intro h; simp at h) ?_
+      · rw [hg', hr]; rfl
+      · rw [hsplit, List.append_assoc, tsOf_append] at hsorted
+        exact (List.pairwise_append.mp hsorted).2.1
+      · intro ts' p'' h
+        simp only [Option.some.injEq, Prod.mk.injEq] at h
+        obtain ⟨rfl, rfl⟩ := h
+        refine ⟨hstw, fun hf => ?_⟩
+        obtain ⟨p3, tl3, h3'⟩ := h5 hf
+        rw [hr] at h3'
+        simp only [List.cons.injEq, Line.recd.injEq] at h3'
+        exact h3'.1.1
+    · intro _ _
+      exact Or.inr ⟨ts, p', tl ++ later.flatten, by rw [hr]; rfl, hnot⟩
+  | returned t cur' adv' hflow hstr hg' hadv' hlim =>
+    have hcw : continueWith (loadLoop H o a fuel) (runGen o a s1 lc evs) =
+        .done t (runGen o a s1 lc evs).s (runGen o a s1 lc evs).evs := by
+      simp [continueWith, hflow]
+    rw [hcw, h1]
+    have hin := h4 hstr
+    refine ⟨c, r ++ later.flatten, _, _, by rw [hsplit]; simp, rfl, h2, ?_, ?_⟩
+    · refine .inFile later g post none r cur' adv' hH hg' hadv' h3 ?_ ?_ h6
+        (fun _ => ⟨hstr, hin.1⟩) (by intro ts p h; simp at h)
+      · rw [hg']; rfl
+      · rw [hsplit, List.append_assoc, tsOf_append] at hsorted
+        exact (List.pairwise_append.mp hsorted).2.1
+    · intro hl hu
+      exact (hlim ⟨hl, hu⟩).elim
+
+theorem Achieves.comments {H : History} {o : Opts} {a : LoadArgs} {evs : List Event}
+    {todo : List Line} {out : LoadOut} (cm : List Line) (hcm : ∀ l ∈ cm, l = .comment)
+    (h : Achieves H o a evs todo out) : Achieves H o a evs (cm ++ todo) out := by
+  obtain ⟨c, r, t, s', h1, h2, h3, h4, h5⟩ := h
+  refine ⟨cm ++ c, r, t, s', by rw [h1, List.append_assoc], ?_, ?_, h4, h5⟩
+  · rw [deliverable_append, deliverable_comments hcm]; exact h2
+  · rw [tsOf_append, tsOf_comments hcm]; exact h3
+
+theorem firstTs0_mem_tsOf {g : File} (h : FirstOk g) : firstTs0 g ∈ tsOf g := by
+  obtain ⟨p, rest, hg, _⟩ := h.ok
+  rw [tsOf_file hg]; simp
+
+theorem tsOf_flatten_mem {g : File} {fs : List File} (hg : g ∈ fs) {t : Time} (ht : t ∈ tsOf g) :
+    t ∈ tsOf fs.flatten := by
+  induction fs with
+  | nil => simp at hg
+  | cons h fs ih =>
+    rw [List.flatten_cons, tsOf_append, List.mem_append]
+    simp only [List.mem_cons] at hg
+    rcases hg with rfl | hg
+    · exact Or.inl ht
+    · exact Or.inr (ih hg)
+
+/-- the finished file `f` is not selected again -/
+theorem afterOk_self {F0 : Time} {s : LState} (hin : InFile F0 s) :
+    afterOk s.strict (s.ts.getD 0) F0 = false := by
+  obtain ⟨_, T, hT, hFT, hiff⟩ := hin
+  rw [hT]
+  simp only [afterOk, Option.getD_some]
+  by_cases hs : s.strict = true
+  · have := hiff.mp hs
+    simp [hs, this]
+  · have := mt hiff.mpr hs
+    simp only [hs, Bool.false_eq_true, ↓reduceIte, decide_eq_false_iff_not, Nat.not_le]
+    exact Nat.lt_of_le_of_ne hFT (Ne.symm this)
+
+/-- **Going on after a finished file.**  The files still to come are opened one after the other,
+oldest first, each exactly once, until a record is not yet due (or the history is exhausted). -/
+theorem loop_spec (H : History) (o : Opts) (a : LoadArgs) (hfix : o.fix = .new) (hwf : WF H) :
+    ∀ later, LoopSpec H o a later := by
+  intro later
+  induction later with
+  | nil =>
+    intro f post fuel s lc evs hH hfuel hst hin _ _
+    obtain ⟨n, rfl⟩ : ∃ n, fuel = n + 1 := ⟨fuel - 1, by simp at hfuel; omega⟩
+    have hf : FirstOk f := hwf.first_ok f (by rw [hH]; simp)
+    obtain ⟨p, rest, hfr, _⟩ := hf.ok
+    obtain ⟨_, T, hT, _, _⟩ := id hin
+    have hself := afterOk_self hin
+    rw [hT] at hself
+    simp only [Option.getD_some] at hself
+    have hscan : scan T true s.strict H none = none := by
+      rw [hH]
+      simp only [List.reverse_nil, List.nil_append]
+      have := scan_after_stop T s.strict [] f post none
+        (by intro t p' r' h; rw [hfr] at h; simp only [First.ok.injEq] at h; rw [← h.1]; exact hself)
+        (by rw [hfr]; simp)
+      simpa [scan] using this
+    refine ⟨[], [], some lc, exhaustedState s, rfl, ?_, by simp [tsOf], .exhausted rfl (Or.inl rfl) rfl,
+      fun _ _ => Or.inl rfl⟩
+    have hb : (St.switching != St.initial) = true := rfl
+    simp [loadLoop, hst, hT, hb, hscan, deliverable]
+  | cons g later ih =>
+    intro f post fuel s lc evs hH hfuel hst hin hsorted hle
+    obtain ⟨n, rfl⟩ : ∃ n, fuel = n + 1 := ⟨fuel - 1, by simp at hfuel; omega⟩
+    have hH' : H = later.reverse ++ g :: f :: post := by rw [hH]; simp
+    have hf : FirstOk f := hwf.first_ok f (by rw [hH]; simp)
+    have hg : FirstOk g := hwf.first_ok g (by rw [hH]; simp)
+    obtain ⟨pf, restf, hfr, _⟩ := hf.ok
+    obtain ⟨p, rest, hgr, _⟩ := hg.ok
+    obtain ⟨_, T, hT, hFT, hiff⟩ := id hin
+    have hself := afterOk_self hin
+    rw [hT] at hself
+    simp only [Option.getD_some] at hself
+    -- every later file passes the test
+    have hpass : ∀ h ∈ g :: later, afterOk s.strict T (firstTs0 h) = true := by
+      intro h hh
+      have hmem : h ∈ (g :: later).reverse := List.mem_reverse.mpr hh
+      have hok : FirstOk h := hwf.first_ok h (by rw [hH]; exact List.mem_append_left _ hmem)
+      by_cases hs : s.strict = true
+      · have hTF := hiff.mp hs
+        have hlt : firstTs0 f < firstTs0 h := by
+          have := hwf.firsts
+          rw [hH, List.pairwise_append] at this
+          exact this.2.2 h hmem f (by simp)
+        simp only [afterOk, hs, ↓reduceIte, decide_eq_true_eq]
+        rw [hTF]; exact hlt
+      · have := hle (firstTs0 h) (tsOf_flatten_mem hh (firstTs0_mem_tsOf hok))
+        rw [hT] at this
+        simpa [afterOk, hs, tsLe] using this
+    have hscan : scan T true s.strict H none = some ⟨firstTs0 g, p, rest⟩ := by
+      rw [hH]
+      simp only [List.reverse_cons]
+      rw [scan_after_stop T s.strict (later.reverse ++ [g]) f post none
+        (by intro t p' r' h; rw [hfr] at h; simp only [First.ok.injEq] at h; rw [← h.1]; exact hself)
+        (by rw [hfr]; simp)]
+      refine scan_after_all T s.strict later.reverse g none ?_ hgr (hpass g (by simp))
+      intro h hh
+      have hmem : h ∈ g :: later := List.mem_cons_of_mem _ (List.mem_reverse.mp hh)
+      have hok : FirstOk h := hwf.first_ok h (by
+        rw [hH]; exact List.mem_append_left _ (List.mem_reverse.mpr hmem))
+      obtain ⟨p', r', hhr, _⟩ := hok.ok
+      exact ⟨_, _, _, hhr, hpass h hmem⟩
+    have hstep : loadLoop H o a (n + 1) s lc evs =
+        continueWith (loadLoop H o a n)
+          (runGen o a (openedState o a ⟨firstTs0 g, p, rest⟩ s) lc evs) := by
+      have hb : (St.switching != St.initial) = true := rfl
+      simp [loadLoop, hst, hT, hb, hscan]
+    rw [hstep]
+    obtain ⟨cm, hgsplit, hcm⟩ := firstRecord_ok hgr
+    have hts_eq : ∀ X, tsOf ((.recd (firstTs0 g) p :: rest) ++ X) = tsOf (g ++ X) := by
+      intro X
+      rw [tsOf_append, tsOf_append, tsOf_file hgr, tsOf_cons_recd]
+    have hflat : (g :: later).flatten = cm ++ ((.recd (firstTs0 g) p :: rest) ++ later.flatten) := by
+      rw [List.flatten_cons]
+      conv => lhs; rw [hgsplit]
+      simp
+    rw [hflat]
+    apply Achieves.comments cm hcm
+    rw [List.flatten_cons] at hsorted hle
+    have hs1st : (openedState o a ⟨firstTs0 g, p, rest⟩ s).st = .switching := hst
+    have hs1ts : (openedState o a ⟨firstTs0 g, p, rest⟩ s).ts = s.ts := rfl
+    have hG0 : tsLe s.ts (firstTs0 g) = true :=
+      hle _ (by rw [tsOf_append, List.mem_append]; exact Or.inl (firstTs0_mem_tsOf hg))
+    exact opened_spec H o a hfix later ih g (f :: post) n (openedState o a ⟨firstTs0 g, p, rest⟩ s) lc evs
+      p rest hH' (by rw [List.length_cons] at hfuel; omega) rfl rfl rfl (by rw [hs1ts]; exact hG0)
+      (Or.inr hs1st) (by rw [hs1st]; simp)
+      (by rw [hts_eq]; exact hsorted) (by rw [hts_eq, hs1ts]; exact hle)
+
 end Cpppo.History
